@@ -255,6 +255,7 @@ Holds(p) ==
     \* the preparation itself does not touch deposits: custody and collateral still hold right after it
     IF AfterStop /\ p = "C03" THEN (ev'.name = "PrepZeroHeight" => Inv_C03') ELSE
     IF AfterStop /\ p = "C14" THEN (ev'.name = "PrepZeroHeight" => Inv_C14') ELSE
+    IF AfterStop /\ p = "C09" THEN (ev'.name = "PrepZeroHeight" => Prep_C09) ELSE
     IF AfterStop /\ p \notin {"C19", "C20"} THEN TRUE ELSE
     CASE p = "C01" -> Inv_C01' /\ Step_C01
       [] p = "C02" -> Step_C02
